@@ -141,6 +141,20 @@ theorem C15_redirect_sites_sound (e : List Site) (r : Site) (hr : r ∈ redirsGo
   obtain ⟨k, c, _, h1, h2, h3, h4⟩ := (inv_final e).sound r hr
   exact ⟨k, c, h1, h2, h3, h4⟩
 
+/-- NO REDIRECT POINTS BACK AT AN HTTP ADDRESS: the site a synthesised redirect goes to ends the pipeline with TLS on, and it was
+not declared with scheme http or on the HTTP port. -/
+theorem C15_redirect_never_to_http (e : List Site) (r : Site) (hr : r ∈ redirsGo e e 0 []) :
+    ∃ c ∈ e, r = redirPlaintextHost c ∧ (stageF c).enabled = true ∧ c.scheme ≠ b!"http" ∧ c.port ≠ b!"80" := by
+  obtain ⟨k, c, hk, hw, hrc, _⟩ := C15_redirect_sites_sound e r hr
+  refine ⟨c, List.mem_of_getElem? hk, hrc, ?_⟩
+  have hw' := hw
+  unfold wantsRedirect at hw'
+  rw [tables_ports.1] at hw'
+  simp only [Bool.and_eq_true, bne_iff_ne, ne_eq] at hw'
+  refine ⟨?_, hw'.1.2, hw'.2⟩
+  rw [stageF_enabled, tables_ports.1]
+  simp [hw'.1.1.1, hw'.1.2, hw'.2]
+
 /-- At most one redirect site per host. -/
 theorem C15_redirect_sites_one_per_host (e : List Site) : ((redirsGo e e 0 []).map (·.host)).Nodup :=
   (inv_final e).nodup
@@ -218,6 +232,11 @@ theorem C15_redirect_location (port hdr target uri : Bytes) (hu : requestURI tar
 example : hostHeaderInScope b!"[::1]:80" = true ∧ requestURI b!"/a%2Fb?x=1" = .ok b!"/a%2Fb?x=1" ∧
     redirLocation (capturedPort b!"8443") b!"[::1]:80" b!"/a%2Fb?x=1" = b!"https://[::1]:8443/a%2Fb?x=1" ∧
     redirLocation (capturedPort b!"443") b!"example.com:80" b!"/" = b!"https://example.com/" := by decide
+
+/-- The probe request of stream c15.sites (GET http://probe.test/p?q=1 to every synthesised site) reads back exactly the port
+the handler captured: the judge's parse of the observed Location is the inverse of the handler model on every numeric port. -/
+theorem C15_probe_roundtrip (rp : Bytes) (hd : rp.all isDigit = true) :
+    probeTarget (redirLocation rp probeHost probeURI) = some rp := probe_roundtrip rp hd
 
 /-- The port captured for a site (default flags) is what `redirPlaintextHost` stores. -/
 theorem C15_captured_port (p : Bytes) : (redirPlaintextHost { port := p }).redir = some (capturedPort p) := by
